@@ -126,33 +126,33 @@ func (f Function) ExecCode() string {
 			x++`, x)
 		case "int":
 			parseargs += fmt.Sprintf(`
-				arg%d, err := strconv.Atoi(args.Args[x])
+				arg%d, err := _strconv.Atoi(args.Args[x])
 				if err != nil {
 					logger.Printf("can't convert argument %%q to int\n", args.Args[x])
-					os.Exit(2)
+					_os.Exit(2)
 				}
 				x++`, x)
 		case "bool":
 			parseargs += fmt.Sprintf(`
-				arg%d, err := strconv.ParseBool(args.Args[x])
+				arg%d, err := _strconv.ParseBool(args.Args[x])
 				if err != nil {
 					logger.Printf("can't convert argument %%q to bool\n", args.Args[x])
-					os.Exit(2)
+					_os.Exit(2)
 				}
 				x++`, x)
 		case "time.Duration":
 			parseargs += fmt.Sprintf(`
-				arg%d, err := time.ParseDuration(args.Args[x])
+				arg%d, err := _time.ParseDuration(args.Args[x])
 				if err != nil {
 					logger.Printf("can't convert argument %%q to time.Duration\n", args.Args[x])
-					os.Exit(2)
+					_os.Exit(2)
 				}
 				x++`, x)
 		}
 	}
 
 	out := parseargs + `
-				wrapFn := func(ctx context.Context) error {
+				wrapFn := func(ctx _context.Context) error {
 					`
 	if f.IsError {
 		out += "return "
